@@ -58,6 +58,35 @@ CHECKS = {
              '4/10 constant shifts, both decimal marks, live view and list, 1-2 connections: displayed times and the '
              'presence/value of every gap separator must equal the exact reference.',
         ref='3/C16', engine='PROD'),
+    'C05': dict(
+        technique='exhaustive product enumeration of matcher expressions built together with their denotation, '
+                  'each evaluated by the real controller (`list`) on a universe of resolved messages',
+        text='Every well-formed combination of connection x object x name x argument atoms, comma/! lists of '
+             'representative patterns and respellings (blanks, redundant brackets) is executed on the real matcher via '
+             '`list`; the selected lines must equal a three-valued denotational reference; parsed vs simplified matcher '
+             'are cross-checked through the API.',
+        ref='3/C05', engine='PROD'),
+    'C06': dict(
+        technique='explicit-state BFS over message/command histories on the real controller, unmerged to small depth '
+                  'and merged deeper, against an unfiltered twin pipeline and a reference filter',
+        text='All histories of message events on two connections and filter/connection commands to the bound, from 4 '
+             'initial filters: after every message the filtered view must have appended exactly the twin\'s line iff the '
+             'reference filter and selection hold; recording is compared in every state.',
+        ref='3/C06', engine='BFS'),
+    'C11': dict(
+        technique='exhaustive product enumeration of list queries (history x filter x selection x matcher x cap), '
+                  'repeated and interleaved, on the real controller against a reference list()',
+        text='For histories of 0/1/12/56 messages, 3 current filters, 3 selections, matchers with hand denotations and caps '
+             '{absent,0,1,2,k-1,k,k+1,99}: listed lines = reference (last N under a cap), counts add up, and '
+             'filter/breakpoint/selection/recorded list are unchanged.',
+        ref='3/C11', engine='PROD'),
+    'C12': dict(
+        technique='exhaustive enumeration of all filter/breakpoint command sequences to the bound from 3 initial '
+                  'matchers on the real controller, oracle = accumulated (alternatives, exclusions) reference',
+        text='Every command sequence of length <=3/<=4 over 14 commands (alternatives, exclusions, both, *, !, bracketed, '
+             'malformed, blank) is applied to filter and breakpoint; the live view and the Stopped-at notices over the '
+             'universe must equal the reference accumulation (three-valued), malformed input changes nothing.',
+        ref='3/C12', engine='BFS'),
 }
 
 NOT_YET = 'check under construction in this round; will be claimed when mc/props/%s.py lands'
